@@ -21,6 +21,9 @@ FIXED = [
     "bind tcp4 / staller 0 off=0 mode=stop / conn 0 / xchg 1 / staller 0 off=70 mode=stop / conn 0 / xchg 3 / unbind 0 / binds / probe 0",
     "bind ipc / staller 0 off=0 mode=stop / conn 0 / xchg 1 / unbind 0 / binds / probe 0",
     "bind tcp4 / bind tcp6 / staller 0 off=10 mode=stop / staller 1 off=64 mode=stop / conn 0 / conn 1 / unbind 0 / xchg 3 / binds / probe 0 / probe 1",
+    # "any number of connections until it is unbound": seventy clients that connected and went silent, then a well-behaved one
+    "bind tcp4 / " + " / ".join(["staller 0 off=0 mode=stop"] * 70) + " / conn 0 / xchg 70 / unbind 0 / binds / probe 0",
+    "bind ipc / " + " / ".join(["staller 0 off=64 mode=stop"] * 70) + " / conn 0 / xchg 70 / unbind 0 / binds / probe 0",
 ]
 
 
